@@ -37,4 +37,140 @@ theorem ElemRdS.integer_tok_junk (env : Env F) (hcfg : env.lex.criSkipsComments 
   have hne : denoteInteger (c' :: u) ≠ longMax := by rw [← hcu]; exact Int.ne_of_lt hhi
   simp [intValue, valueToAtom, hcu, hne]
 
+/-- **a real with something behind it as an element of an aggregate of REAL** (`1.5X`, `2.0'a'`): the real is stored, what
+    follows it - no digit, `E`, `e`, blank or `/` first, no `,` `)` `;` - is reported: WARNING, the loop goes on -/
+theorem ElemRdS.real_tok_junk (env : Env F) (hcfg : env.lex.criSkipsComments = true) (hagg : env.cfg.aggrSkipsComments = true)
+    (tok : List Byte) (dec : Decimal) (v : F) (htok : isReal tok = true) (hden : denoteReal tok = some dec)
+    (hv : env.ops.ofDecimal dec = some v) (hnn : env.ops.isRealNull v = false)
+    (hbuf : env.lex.realBuf = 0 ∨ tok.length < env.lex.realBuf)
+    (j0 : Byte) (js : List Byte) (hj0s : isSpace j0 = false) (hj047 : j0 ≠ 47) (hj0d : isDigit j0 = false)
+    (hj0e : j0 ≠ 101) (hj0E : j0 ≠ 69)
+    (hj : ∀ b ∈ j0 :: js, delimAt env.lex attrDelims b = false)
+    (hsemi : env.lex.criStopsAtSemicolon = true → ∀ b ∈ j0 :: js, b ≠ 59)
+    (before : List Byte) (hb : Seps before) :
+    ElemRdS env .real { tok := tok ++ j0 :: js, before := before, after := [], v := .atom (.real v) } .warning := by
+  obtain ⟨c, u, hcu, hcs, _, h44, h41, h47, h92⟩ := number_head tok (Or.inl htok)
+  refine ⟨hb, ⟨c, u ++ j0 :: js, by rw [hcu]; rfl, hcs, h47, h41, h92⟩, ?_⟩
+  intro l sk d rest hd
+  refine ⟨sk, Or.inl rfl, ?_⟩
+  have hr := readReal_tok_junk env.ops env.lex tok dec v htok hden hv hbuf j0 js hj0s hj047 hj0d hj0e hj0E hj hsemi l sk d rest hd
+  show elemRead env .real (G l ((tok ++ j0 :: js) ++ ([] ++ d :: rest)) sk) = _
+  have hshape : (tok ++ j0 :: js) ++ ([] ++ d :: rest) = c :: (u ++ (j0 :: (js ++ d :: rest))) := by rw [hcu]; simp
+  rw [hcu] at hr
+  simp only [List.cons_append] at hr
+  rw [hshape, elemRead_at_tok env hagg _ l c _ sk hcs h47 h44 h41 h92, elemReadCore_scalar env .real (Or.inr (Or.inl rfl))]
+  have hsn : scalarNodeRead env .real (G l (c :: (u ++ (j0 :: (js ++ d :: rest)))) sk) =
+      .ok (.warning, .real v, G ((j0 :: js).reverse ++ ((c :: u).reverse ++ l)) (d :: rest) sk) := by
+    unfold scalarNodeRead
+    simp only [hr, liftOutcome, bind, Except.bind, pure, Except.pure]
+    simp [realValue, hnn, valueToAtom]
+  simp only [bind, Except.bind, pure, Except.pure, hsn]
+  have hcri := cri_seps env.lex hcfg [] (Seps.blanks [] (by simp)) ((j0 :: js).reverse ++ ((c :: u).reverse ++ l)) rest d false sk .warning hd
+  simp only [List.nil_append, List.reverse_nil] at hcri
+  have hcri' : checkRemainingInput env.lex (some attrDelims) (G ((j0 :: js).reverse ++ ((c :: u).reverse ++ l)) (d :: rest) sk) Sev.warning =
+      (G ((j0 :: js).reverse ++ ((c :: u).reverse ++ l)) (d :: rest) sk, Sev.warning) := hcri
+  simp only [hcri']
+  simp [hcu]
+
+/-- the value of an INTEGER member of a select that starts like an integer but has something behind it (`CNT_T(5X)`,
+    `CNT_T(1.5)`; no `,` `)` `;` inside): the integer is stored, WARNING -/
+theorem LeafRdS.integer_tok_junk (env : Env F) (m : SelMember) (hm : m.ty = .integer)
+    (tok : List Byte) (htok : isInteger tok = true) (hlo : longMin ≤ denoteInteger tok) (hhi : denoteInteger tok < longMax)
+    (j0 : Byte) (js : List Byte) (hj0s : isSpace j0 = false) (hj047 : j0 ≠ 47) (hj0d : isDigit j0 = false)
+    (hj : ∀ b ∈ j0 :: js, delimAt env.lex attrDelims b = false)
+    (hsemi : env.lex.criStopsAtSemicolon = true → ∀ b ∈ j0 :: js, b ≠ 59) :
+    LeafRdS env m (tok ++ j0 :: js) (.int (denoteInteger tok)) .warning := by
+  obtain ⟨c, u, hcu, hcs, _, _, _⟩ := isInteger_head tok htok
+  refine ⟨⟨c, u ++ j0 :: js, by rw [hcu]; rfl, hcs⟩, ?_⟩
+  intro l sk rest
+  have hr := readInteger_tok_junk env.lex tok htok hlo (Int.le_of_lt hhi) j0 js hj0s hj047 hj0d hj hsemi l sk 41 rest (Or.inr rfl)
+  refine ⟨G ((j0 :: js).reverse ++ (tok.reverse ++ l)) (41 :: rest) sk, sk, Or.inl rfl, ?_, ?_⟩
+  · unfold selContentRead
+    simp only [hm]
+    rw [show (if (ElemTy.integer == ElemTy.number) = true then ElemTy.real else ElemTy.integer) = ElemTy.integer from rfl,
+      scalarNodeRead_integer]
+    have hshape : (tok ++ j0 :: js) ++ 41 :: rest = tok ++ (j0 :: (js ++ 41 :: rest)) := by simp
+    rw [hshape, hr]
+    have hne : denoteInteger tok ≠ longMax := Int.ne_of_lt hhi
+    simp [intValue, valueToAtom, hne]
+  · have : (tok ++ j0 :: js).reverse ++ l = (j0 :: js).reverse ++ (tok.reverse ++ l) := by simp
+    rw [this]
+    exact ws_good0 _ 41 rest sk (by decide)
+
+/-- **a wrong-kind element of an aggregate of REAL** (a string, an enumeration item, a reference, a keyword: anything that
+    starts like no real numeral and holds no `,` `)` `;`): the element is unset, WARNING, the loop goes on behind it -/
+theorem ElemRdS.real_junk (env : Env F) (hcfg : env.lex.criSkipsComments = true) (hagg : env.cfg.aggrSkipsComments = true)
+    (j0 : Byte) (js : List Byte) (hj0s : isSpace j0 = false) (hj047 : j0 ≠ 47) (hj092 : j0 ≠ 92) (hnn : notNum j0)
+    (hj : ∀ b ∈ j0 :: js, delimAt env.lex attrDelims b = false)
+    (hsemi : env.lex.criStopsAtSemicolon = true → ∀ b ∈ j0 :: js, b ≠ 59)
+    (before : List Byte) (hb : Seps before) :
+    ElemRdS env .real { tok := j0 :: js, before := before, after := [], v := .atom .unset } .warning := by
+  obtain ⟨h44, h41⟩ := junk_head_facts env.lex j0 js hj
+  refine ⟨hb, ⟨j0, js, rfl, hj0s, hj047, h41, hj092⟩, ?_⟩
+  intro l sk d rest hd
+  refine ⟨sk, Or.inl rfl, ?_⟩
+  show elemRead env .real (G l (j0 :: js ++ ([] ++ d :: rest)) sk) = _
+  simp only [List.nil_append, List.cons_append]
+  rw [elemRead_at_tok env hagg _ l j0 _ sk hj0s hj047 h44 h41 hj092, elemReadCore_scalar env .real (Or.inr (Or.inl rfl))]
+  have hconv : env.ops.conv (IStream.scanFloat [] []).1 = .invalid := rfl
+  have hrr : ∃ e0, (e0 = Sev.null ∨ e0 = Sev.warning) ∧ readReal env.ops env.lex (some attrDelims) (G l (j0 :: (js ++ d :: rest)) sk) .null =
+      .ok (none, (checkRemainingInput env.lex (some attrDelims) (G l (j0 :: (js ++ d :: rest)) sk) e0).1,
+               (checkRemainingInput env.lex (some attrDelims) (G l (j0 :: (js ++ d :: rest)) sk) e0).2) := by
+    refine ⟨Sev.null.warnIf (env.lex.realReportsFail && (env.lex.realFailUnlessBlank || !([] : List Byte).isEmpty)),
+      by cases (env.lex.realReportsFail && (env.lex.realFailUnlessBlank || !([] : List Byte).isEmpty))
+         · exact Or.inl rfl
+         · exact Or.inr rfl, ?_⟩
+    simp only [readReal, ws_good0 _ _ _ _ hj0s, IStream.good, Bool.not_false, Bool.and_self, Bool.not_true, Bool.false_eq_true,
+      if_false, realCollect_junk j0 _ hnn, List.length_nil, List.reverse_nil, List.nil_append, hconv]
+    have : (env.lex.realBuf != 0 && decide (0 ≥ env.lex.realBuf)) = false := by
+      cases h : env.lex.realBuf with
+      | zero => simp
+      | succ n => simp
+    simp only [this, Bool.false_eq_true, if_false]
+    rfl
+  obtain ⟨e0, he0, hrr⟩ := hrr
+  have hsn : scalarNodeRead env .real (G l (j0 :: (js ++ d :: rest)) sk) =
+      .ok (.warning, .unset, G ((j0 :: js).reverse ++ l) (d :: rest) sk) := by
+    unfold scalarNodeRead
+    simp only [hrr, liftOutcome, bind, Except.bind, pure, Except.pure]
+    rw [cri_junk env.lex j0 js hj0s hj047 hj hsemi l rest d false sk e0 hd]
+    rcases he0 with rfl | rfl <;> simp [realValue, valueToAtom] <;> rfl
+  simp only [bind, Except.bind, pure, Except.pure, hsn]
+  have hcri := cri_seps env.lex hcfg [] (Seps.blanks [] (by simp)) ((j0 :: js).reverse ++ l) rest d false sk .warning hd
+  simp only [List.nil_append, List.reverse_nil] at hcri
+  have hcri' : checkRemainingInput env.lex (some attrDelims) (G ((j0 :: js).reverse ++ l) (d :: rest) sk) Sev.warning =
+      (G ((j0 :: js).reverse ++ l) (d :: rest) sk, Sev.warning) := hcri
+  simp only [hcri']
+  simp
+
+/-- **a wrong-kind element of an aggregate of STRING** (a number, an enumeration item, a reference, a keyword: anything that
+    does not start with an apostrophe and holds no `,` `)` `;`): the element is unset, WARNING, the loop goes on behind it -/
+theorem ElemRdS.string_junk (env : Env F) (hagg : env.cfg.aggrSkipsComments = true)
+    (j0 : Byte) (js : List Byte) (hj0s : isSpace j0 = false) (hj047 : j0 ≠ 47) (hj092 : j0 ≠ 92) (hj039 : j0 ≠ 39)
+    (hj : ∀ b ∈ j0 :: js, delimAt env.lex attrDelims b = false)
+    (hsemi : env.lex.criStopsAtSemicolon = true → ∀ b ∈ j0 :: js, b ≠ 59)
+    (before : List Byte) (hb : Seps before) :
+    ElemRdS env .string { tok := j0 :: js, before := before, after := [], v := .atom .unset } .warning := by
+  obtain ⟨h44, h41⟩ := junk_head_facts env.lex j0 js hj
+  refine ⟨hb, ⟨j0, js, rfl, hj0s, hj047, h41, hj092⟩, ?_⟩
+  intro l sk d rest hd
+  refine ⟨sk, Or.inl rfl, ?_⟩
+  show elemRead env .string (G l (j0 :: js ++ ([] ++ d :: rest)) sk) = _
+  simp only [List.nil_append, List.cons_append]
+  rw [elemRead_at_tok env hagg _ l j0 _ sk hj0s hj047 h44 h41 hj092,
+    elemReadCore_scalar env .string (Or.inr (Or.inr (Or.inl rfl)))]
+  simp only [bind, Except.bind, pure, Except.pure]
+  rw [scalarNodeRead_string]
+  have e39 : (j0 == 39) = false := by simpa using hj039
+  have hsr : stringRead (G l (j0 :: (js ++ d :: rest)) sk) .null = ([], G l (j0 :: (js ++ d :: rest)) sk, .incomplete) := by
+    simp only [stringRead, IStream.setSkipws, getLiteralStr, ws_good0 _ _ _ _ hj0s, IStream.good, Bool.not_false, Bool.and_self,
+      Bool.not_true, Bool.false_eq_true, if_false, e39, List.isEmpty_nil, if_true]
+    rfl
+  rw [hsr]
+  simp only [List.isEmpty_nil, if_true]
+  rw [show checkRemainingInput env.lex (some attrDelims) (G l (j0 :: (js ++ d :: rest)) sk) Sev.incomplete =
+    (G ((j0 :: js).reverse ++ l) (d :: rest) sk, Sev.incomplete.greater .warning) from
+    cri_junk env.lex j0 js hj0s hj047 hj hsemi l rest d false sk .incomplete hd]
+  rfl
+
 end StepModel.P21.RLemmas
